@@ -51,6 +51,8 @@ def gen_value(rng, alphabet):
         return 'h'
     if k < 0.8:
         return 'm'
+    if k < 0.86:
+        return ['reuse', rng.randrange(8)]
     return ['pm', [[gen_key(rng, alphabet, 2), rng.choice('hhm')]
                    for _ in range(rng.randint(1, 3))]]
 
